@@ -297,6 +297,18 @@ impl Transition {
         }
     }
 
+    /// Verification hook: the vehicle-to-cycle lookup (read-only copy).
+    #[cfg(feature = "verif")]
+    pub fn verif_cycle_lookup(&self) -> Vec<(VehicleIdx, CycleIdx)> {
+        self.cycle_lookup.iter().map(|(v, c)| (*v, *c)).collect()
+    }
+
+    /// Verification hook: the list of reusable empty cycles (read-only copy).
+    #[cfg(feature = "verif")]
+    pub fn verif_empty_cycles(&self) -> Vec<CycleIdx> {
+        self.empty_cycles.clone()
+    }
+
     fn push_vehicle_to_end_of_cluster(
         cluster: &mut Vec<VehicleIdx>,
         maintenance_counter: &mut MaintenanceCounter,
